@@ -1,8 +1,8 @@
 package main
 
 import (
-	"github.com/meshplus/bitxhub-kit/types"
 	"fmt"
+	"github.com/meshplus/bitxhub-kit/types"
 	"io/ioutil"
 	"math/big"
 	"math/rand"
